@@ -119,6 +119,59 @@ def disjoint_event(chk, sets, what):
     chk.add_event(ev)
 
 
+def registry_replay(chk, quick):
+    """spec -> code: TLC enumerates every history of registry calls up to
+    the depth (spec/Registry.tla, invariants = freshness / identity), prints
+    what each call returns and the scalar registry state after it; the
+    histories are replayed into adcgen.indices.Indices (fresh registry per
+    history) and compared step by step."""
+    runs = [("Registry.cfg", None)] if quick else \
+        [("Registry.cfg", None), ("Registry_d4.cfg", None)]
+    for cfgname, _ in runs:
+        res = chk.run_mc("Registry", cfg=cfgname, timeout=1800,
+                         what="index registry: pool names unused / distinct, "
+                              "generic requests fresh, symbols only grow, "
+                              "classes independent (" + cfgname + ")")
+        lines = [json.loads(ln)[4:] for ln in res["stdout"].splitlines()
+                 if ln.startswith('"REG ')]
+        if not lines:
+            chk.machinery_errors.append("Registry.tla printed no history")
+            return
+        os.makedirs(tlc.WORK, exist_ok=True)
+        fd, path = tempfile.mkstemp(prefix="reg_", suffix=".jsonl",
+                                    dir=tlc.WORK)
+        with os.fdopen(fd, "w") as fh:
+            fh.write("\n".join(lines) + "\n")
+        env = dict(os.environ)
+        env["PYTHONPATH"] = f"/repo:{VERIF}"
+        try:
+            pr = subprocess.run(["/venv/bin/python", "-m",
+                                 "harness.registry_replay", path], env=env,
+                                capture_output=True, text=True, timeout=1800,
+                                cwd=VERIF)
+        finally:
+            os.unlink(path)
+        out = [ln for ln in pr.stdout.splitlines()
+               if ln.startswith("REGRESULT ")]
+        if not out:
+            chk.machinery_errors.append("registry replay failed: " +
+                                        pr.stderr[-600:])
+            return
+        r = json.loads(out[0][len("REGRESULT "):])
+        chk.count("registry_histories_replayed", r["n"])
+        chk.traces_ok += r["n"] - r["n_bad"]
+        for b in r["bad"][:3]:
+            if "calls" not in b:
+                continue
+            chk.report_direct(
+                f"registry:{b['clause']}",
+                f"registry history {b['calls']}: step {b['step']} disagrees "
+                f"with spec/Registry.tla ({b['clause']}: {b['detail']})", b)
+    chk.add_sample({"registry_histories": "every sequence of <= 3 (menu of "
+                    "24 calls) / <= 4 (thorough) explicit and generic "
+                    "index requests on two (space, spin) classes"})
+
+
 def run(chk):
     r = random.Random(chk.seed)
     quick = chk.tier == "quick"
@@ -175,40 +228,56 @@ def run(chk):
                                f"history {h} (seed {sd})")
     if len(sample):
         chk.add_sample({"history": sample[0], "seeds": seeds})
-    # tensor-name configuration: a scratch copy of the package
-    scratch = tempfile.mkdtemp(prefix="adcgen_names_")
-    try:
-        shutil.copytree("/repo/adcgen", os.path.join(scratch, "adcgen"))
-        cfgp = os.path.join(scratch, "adcgen", "tensor_names.json")
-        cfg = json.load(open(cfgp))
-        newcfg = dict(cfg, eri="W", fock="h", gs_amplitude="s",
-                      orb_energy="x", sym_orb_denom="Z", operator="g",
-                      gs_density="r")
-        json.dump(newcfg, open(cfgp, "w"))
-        rename = {newcfg[k]: cfg[k] for k in cfg if newcfg[k] != cfg[k]}
-        for q in (["energy2", "amp2ph", "m1phph", "t2_2"] if quick else
-                  ["energy2", "energy3", "amp2ph", "amp2pphh", "m1phph",
-                   "m2phph", "t2_2", "ovl2", "expect2"]):
-            rec = run_worker([q], 0, pkg_root=scratch)[0]
-            chk.count("processes")
-            what = f"{q} with tensor_names.json {newcfg}"
-            if rec["kind"] == "exception":
-                chk.report_direct(f"names:{q}:exception", f"{what} raised "
-                                  f"{rec['exc']}", rec)
-                continue
-            if q not in reference:
-                reference[q] = run_worker([q], 0)[0]
-            # names occurring in the renamed result must be the new ones
-            bad = [n for n in rec["names"] if n in cfg.values() and
-                   n not in newcfg.values() and n not in ("X", "Y")]
-            if bad:
-                chk.report_direct(f"names:{q}:default-name-left", f"{what}: "
-                                  f"default names {bad} still occur", rec)
-                continue
-            step_event(chk, reference[q], rec, what, f"names:{q}",
-                       rename=rename)
-    finally:
-        shutil.rmtree(scratch, ignore_errors=True)
+    # tensor-name configurations: scratch copies of the package; one with
+    # single-letter names, one with names of different lengths
+    cfg = json.load(open("/repo/adcgen/tensor_names.json"))
+    configs = [
+        dict(cfg, eri="W", fock="h", gs_amplitude="s", orb_energy="x",
+             sym_orb_denom="Z", operator="g", gs_density="r"),
+        dict(cfg, eri="Vee", fock="fk", gs_amplitude="amp", orb_energy="eps",
+             sym_orb_denom="Den", operator="op", gs_density="rhoq"),
+    ]
+    if not quick:
+        configs.append(dict(cfg, gs_amplitude="tq", gs_density="p",
+                            eri="U", operator="dd"))
+    name_reqs = [["energy2", "amp2ph", "t2_2", "p0_2_exp"],
+                 ["m1phph", "amp2ph", "p0_2_exp", "p0_2_vv_exp"]] if quick else \
+        [["energy2", "energy3", "amp2ph", "amp2pphh", "m1phph", "m2phph",
+          "t2_2", "ovl2", "expect2", "p0_2_exp", "p0_2_vv_exp",
+          "p0_3_ov_exp"]] * 3
+    for newcfg, rqs in zip(configs, name_reqs):
+        scratch = tempfile.mkdtemp(prefix="adcgen_names_")
+        try:
+            shutil.copytree("/repo/adcgen", os.path.join(scratch, "adcgen"))
+            cfgp = os.path.join(scratch, "adcgen", "tensor_names.json")
+            json.dump(newcfg, open(cfgp, "w"))
+            rename = {newcfg[k]: cfg[k] for k in cfg if newcfg[k] != cfg[k]}
+            for q in rqs:
+                rec = run_worker([q], 0, pkg_root=scratch)[0]
+                chk.count("processes")
+                what = f"{q} with tensor_names.json {newcfg}"
+                if rec["kind"] == "exception":
+                    chk.report_direct(f"names:{q}:exception", f"{what} raised "
+                                      f"{rec['exc']}", rec)
+                    continue
+                if q not in reference:
+                    reference[q] = run_worker([q], 0)[0]
+                    chk.count("processes")
+                # names occurring in the renamed result must be the new ones
+                bad = [n for n in rec["names"] if n in cfg.values() and
+                       n not in newcfg.values() and n not in ("X", "Y")]
+                if bad:
+                    chk.report_direct(f"names:{q}:default-name-left",
+                                      f"{what}: default names {bad} still "
+                                      "occur", rec)
+                    continue
+                step_event(chk, reference[q], rec, what, f"names:{q}",
+                           rename=rename)
+        finally:
+            shutil.rmtree(scratch, ignore_errors=True)
+    # the index registry as a state machine: every history of
+    # spec/Registry.tla replayed into the real class
+    registry_replay(chk, quick)
     chk.judge(chunk=120)
     return chk.finish(
         rule="histories = all request sequences of the build phase of "
